@@ -46,7 +46,23 @@ impl OptChainVisitor<'_> {
              *
              *  (_1 = obj, _2 = _1.b, _2 == null ? undefined : _2.call(_1, arg1, arg2))
              */
-            if let Expr::Member(mut member_expr) = *call_expr.callee.clone() {
+            // obj?.b?.(arg1, arg2): the callee is itself a link of the chain. It is read from the
+            //  extracted object with an optional access, so that the call keeps its this:
+            //
+            //  (_1 = obj, _2 = _1?.b, _2 == null ? undefined : _2.call(_1, arg1, arg2))
+            let callee_member = match *call_expr.callee.clone() {
+                Expr::Member(member_expr) => Some((member_expr, false)),
+                Expr::OptChain(OptChainExpr {
+                    base,
+                    optional: true,
+                    ..
+                }) => match *base {
+                    OptChainBase::Member(member_expr) => Some((member_expr, true)),
+                    _ => None,
+                },
+                _ => None,
+            };
+            if let Some((mut member_expr, optional_member)) = callee_member {
                 let mut member_obj_arguments = Vec::new();
                 let span = DUMMY_SP;
                 let member_obj_ident_opt = self.ident_provider.get_ident_used_in_assignation(
@@ -66,9 +82,18 @@ impl OptChainVisitor<'_> {
 
                     member_expr.map_with_mut(|_| new_member_expr);
 
+                    let member_read = if optional_member {
+                        Expr::OptChain(OptChainExpr {
+                            span: DUMMY_SP,
+                            optional: true,
+                            base: Box::new(OptChainBase::Member(member_expr.clone())),
+                        })
+                    } else {
+                        Expr::Member(member_expr.clone())
+                    };
                     let mut member_expr_args = Vec::new();
                     let member_expr_ident_opt = self.ident_provider.get_ident_used_in_assignation(
-                        &Expr::Member(member_expr.clone()),
+                        &member_read,
                         &mut self.assignments,
                         &mut member_expr_args,
                         &span,
